@@ -305,7 +305,7 @@ static int cmd_raw(char** tok, int nt)
 
 /* ------------------------------------------------------------------ control-format container with several mixed ACF-CAN messages
  * (growth: AcfContainer.tla)
- * CT <ctrl: Tscf|Ntscf> <place> <off> <arenahex> <msgs: k:idhex:fd:payhex;... or ->      k: f (full CAN) | b (brief CAN) | g (GPC, 48-bit id)
+ * CT <ctrl: Tscf|Ntscf> <place> <off> <arenahex> <msgs: k:idhex:fd:payhex;... or ->      k: f (full CAN) | b (brief CAN) | g (GPC, 48-bit id); a bare c = close here and go on
  *   assembles the container with the library the way the tutorial / talkers do (offset advanced by the length READ BACK),
  *   writes the control header's data length, then walks the result by the generic ACF prefix.
  * answer: R status used 0 0 arena canary walk=<k:id:fd:eff:payhex;...>                                                   */
@@ -326,6 +326,12 @@ static void ct_fn(void* p)
     char* s = c->msgs;
     while (s && *s && *s != '-') {
         char k = s[0]; char* q = s + 2;
+        if (k == 'c') {          /* intermediate close: the data length is written, more messages follow */
+            if (c->tscf) Avtp_Tscf_SetStreamDataLength((Avtp_Tscf_t*)c->arena, (uint16_t)(pos - hdr));
+            else Avtp_Ntscf_SetNtscfDataLength((Avtp_Ntscf_t*)c->arena, (uint16_t)(pos - hdr));
+            s = (s[1] == ';') ? s + 2 : NULL;
+            continue;
+        }
         uint64_t id = 0; while (ct_hex(*q) >= 0) id = (id << 4) | (uint64_t)ct_hex(*q++);
         q++;
         int fd = *q++ == '1'; q++;
